@@ -7,6 +7,7 @@
 (*  "bwpoly"  L, path, num, den : coefficient lists (Z, low -> high) of    *)
 (*            BlattWeisskopfSquared(z, L).doit() as a rational function    *)
 (*  "bwval"   L, z, fast, hankel : [st, q] exact values at a rational z    *)
+(*  "bwneg"   L, z < 0, equal : the two paths at a point below threshold   *)
 (*            (fast = integer-L polynomial path; hankel = symbolic-L       *)
 (*            expression, L substituted afterwards)                        *)
 (*  "width"   X, L, s, m0, m1, m2, d, o : observation of                   *)
@@ -52,6 +53,12 @@ BwValClauses ==
   /\ Clause("HankelPathValue", Rec.hankel.st = "exact" /\ QDefined(Rec.hankel.q) /\ QEq(Rec.hankel.q, BWHankel(L, z)), <<L, z>>)
   /\ Clause("FastEqualsHankel", Rec.fast.st = "exact" /\ Rec.hankel.st = "exact" /\ QEq(Rec.fast.q, Rec.hankel.q), <<L, z>>)
   /\ Clause("OneAtOne", z = <<1, 1>> => Rec.fast.st = "exact" /\ QEq(Rec.fast.q, QOne), <<L, "value">>)
+
+\* ---- "bwneg": below threshold (z = q^2 d^2 < 0) ---------------------------------
+\* the two paths are compared by the driver (SymPy: simplify(fast - hankel) = 0; the Hankel path is transcendental there);
+\* the clause states the law: one function, whichever path computes it
+BwNegClauses ==
+  /\ Clause("FastEqualsHankelBelowThreshold", Rec.equal = 1, <<Rec.L, Rec.z>>)
 
 \* ---- "width" ----------------------------------------------------------------
 One12 == ZOfN(NShift(<<1>>, ScaleLimbs))
@@ -159,9 +166,10 @@ AdjClauses ==
             IN p.st = "num" /\ NLe(NMul(dist, NOf(10000000)), size),
          <<Rec.of, Rec.conv, Rec.flags>>)
 
-Keys == {"bwpoly", "bwval", "width_pole", "width_formula", "width_other", "bld", "bld_raise", "adj"}
+Keys == {"bwpoly", "bwval", "bwneg", "width_pole", "width_formula", "width_other", "bld", "bld_raise", "adj"}
 Key == CASE Rec.k = "bwpoly" -> "bwpoly"
          [] Rec.k = "bwval" -> "bwval"
+         [] Rec.k = "bwneg" -> "bwneg"
          [] Rec.k = "width" -> IF Rec.s = RSq(Rec.m0) THEN "width_pole"
                                ELSE IF Rec.X \in Algebraic /\ WidthDefined(Rec.X, Rec.L, Rec.s, Rec.m0, Rec.m1, Rec.m2, Rec.d)
                                     THEN "width_formula" ELSE "width_other"
@@ -172,6 +180,7 @@ Step ==
   /\ l <= Len(Log)
   /\ CASE Rec.k = "bwpoly" -> BwPolyClauses
        [] Rec.k = "bwval" -> BwValClauses
+       [] Rec.k = "bwneg" -> BwNegClauses
        [] Rec.k = "width" -> WidthClauses
        [] Rec.k = "bld" -> BldClauses
        [] Rec.k = "adj" -> AdjClauses
